@@ -38,7 +38,9 @@ def main():
     prof = os.path.join(out, "raw")
     shutil.rmtree(prof, ignore_errors=True)
     os.makedirs(prof)
-    env = dict(os.environ, CARGO_TARGET_DIR=TGT, RUSTFLAGS=RF, CARGO_NET_OFFLINE="true")
+    # build scripts and proc-macros of the instrumented build write profiles too: keep them out of /repo and /verif
+    env = dict(os.environ, CARGO_TARGET_DIR=TGT, RUSTFLAGS=RF, CARGO_NET_OFFLINE="true",
+               LLVM_PROFILE_FILE=os.path.join(out, "build-%p-%m.profraw"))
     if not skip:
         for crate in ("harness", "harness_opt"):
             subprocess.run(["cargo", "+nightly", "build", "--offline", "--profile", "unchecked", "--bins"],
